@@ -72,7 +72,7 @@ func init() {
 				worst, undecided := 1.0, false
 				var worstAt *ssa.Store
 				for _, ms := range stores {
-					lb, ok2 := lowerBound(ms.st.Val, 0)
+					lb, ok2 := lowerBound(ms.st.Val, 0, nil)
 					if ok2 && lb >= 1 {
 						continue
 					}
@@ -198,10 +198,27 @@ func isLowWaterField(c *core.Ctx, field string) bool {
 	return res[field]
 }
 
+// lbEnv: inside a helper the bound evaluation entered through a call, the parameters that carry the limit itself and
+// the lower bounds known for the other parameters.
+type lbEnv struct {
+	lim map[ssa.Value]bool
+	lb  map[ssa.Value]float64
+}
+
 // lowerBound evaluates a lower bound of v over the domain ‘every count limit read from an options parameter is ≥ 1’.
-func lowerBound(v ssa.Value, depth int) (float64, bool) {
+func lowerBound(v ssa.Value, depth int, env *lbEnv) (float64, bool) {
 	if depth > 12 || v == nil {
 		return 0, false
+	}
+	if ld, ok := v.(*ssa.UnOp); ok && ld.Op == token.MUL {
+		if sv := an.FreshFieldVal(ld); sv != nil {
+			return lowerBound(sv, depth+1, env)
+		}
+	}
+	if env != nil {
+		if lb, ok := env.lb[v]; ok {
+			return lb, true
+		}
 	}
 	switch x := v.(type) {
 	case *ssa.Const:
@@ -215,7 +232,7 @@ func lowerBound(v ssa.Value, depth int) (float64, bool) {
 		}
 		return 0, false
 	case *ssa.Convert:
-		lb, ok := lowerBound(x.X, depth+1)
+		lb, ok := lowerBound(x.X, depth+1, env)
 		if !ok {
 			return 0, false
 		}
@@ -224,17 +241,17 @@ func lowerBound(v ssa.Value, depth int) (float64, bool) {
 		}
 		return lb, true
 	case *ssa.ChangeType:
-		return lowerBound(x.X, depth+1)
+		return lowerBound(x.X, depth+1, env)
 	case *ssa.BinOp:
-		a, ok1 := lowerBound(x.X, depth+1)
+		a, ok1 := lowerBound(x.X, depth+1, env)
 		switch x.Op {
 		case token.MUL:
-			b, ok2 := lowerBound(x.Y, depth+1)
+			b, ok2 := lowerBound(x.Y, depth+1, env)
 			if ok1 && ok2 && a >= 0 && b >= 0 {
 				return a * b, true
 			}
 		case token.ADD:
-			b, ok2 := lowerBound(x.Y, depth+1)
+			b, ok2 := lowerBound(x.Y, depth+1, env)
 			if ok1 && ok2 {
 				return a + b, true
 			}
@@ -257,11 +274,11 @@ func lowerBound(v ssa.Value, depth int) (float64, bool) {
 		any := false
 		for i, e := range x.Edges {
 			pred := x.Block().Preds[i]
-			feasible, bound := edgeFacts(pred, x.Block(), e)
+			feasible, bound := edgeFacts(pred, x.Block(), e, env)
 			if !feasible {
 				continue
 			}
-			lb, ok := lowerBound(e, depth+1)
+			lb, ok := lowerBound(e, depth+1, env)
 			if !ok {
 				if math.IsInf(bound, -1) {
 					return 0, false
@@ -281,28 +298,122 @@ func lowerBound(v ssa.Value, depth int) (float64, bool) {
 		}
 		return best, true
 	case *ssa.UnOp:
-		if x.Op == token.MUL && isLimitSource(x) {
+		if x.Op == token.MUL && isLimitSource(x, env) {
 			return 1, true
 		}
 		return 0, false
 	case *ssa.Field:
-		if isLimitSource(x) {
+		if isLimitSource(x, env) {
 			return 1, true
 		}
 	case *ssa.Parameter:
-		if isLimitSource(x) {
+		if isLimitSource(x, env) {
 			return 1, true
 		}
 		return 0, false
-	case *ssa.Extract, *ssa.Call:
+	case *ssa.Call:
+		if bi, ok := x.Call.Value.(*ssa.Builtin); ok {
+			switch bi.Name() {
+			case "max":
+				best, any := math.Inf(-1), false
+				for _, a := range x.Call.Args {
+					if lb, ok := lowerBound(a, depth+1, env); ok {
+						any = true
+						best = math.Max(best, lb)
+					}
+				}
+				return best, any
+			case "min":
+				best := math.Inf(1)
+				for _, a := range x.Call.Args {
+					lb, ok := lowerBound(a, depth+1, env)
+					if !ok {
+						return 0, false
+					}
+					best = math.Min(best, lb)
+				}
+				return best, len(x.Call.Args) > 0
+			}
+			return 0, false
+		}
+		return calleeBound(x, 0, depth, env)
+	case *ssa.Extract:
+		if call, ok := x.Tuple.(*ssa.Call); ok {
+			return calleeBound(call, x.Index, depth, env)
+		}
 		return 0, false
 	}
 	return 0, false
 }
 
+// calleeBound: the lower bound of result idx of a statically resolved helper of the analysed program, over its feasible
+// returns, with the parameters bound to what the call passes (the limit itself, or a value with a known bound).
+func calleeBound(call *ssa.Call, idx int, depth int, env *lbEnv) (float64, bool) {
+	callee := call.Call.StaticCallee()
+	if callee == nil || len(callee.Blocks) == 0 || call.Call.IsInvoke() || len(callee.FreeVars) > 0 {
+		return 0, false
+	}
+	if callee.Signature.Results().Len() <= idx || len(callee.Params) != len(call.Call.Args) {
+		return 0, false
+	}
+	env2 := &lbEnv{lim: map[ssa.Value]bool{}, lb: map[ssa.Value]float64{}}
+	for i, p := range callee.Params {
+		a := call.Call.Args[i]
+		if isLimitSource(a, env) {
+			env2.lim[p] = true
+		} else if lb, ok := lowerBound(a, depth+1, env); ok {
+			env2.lb[p] = lb
+		}
+	}
+	best, any := math.Inf(1), false
+	for _, b := range callee.Blocks {
+		if len(b.Instrs) == 0 {
+			continue
+		}
+		ret, ok := b.Instrs[len(b.Instrs)-1].(*ssa.Return)
+		if !ok || len(ret.Results) <= idx {
+			continue
+		}
+		e := ret.Results[idx]
+		feasible, bound := edgeFacts(b, nil, e, env2)
+		if !feasible {
+			continue
+		}
+		lb, ok := lowerBound(e, depth+1, env2)
+		if !ok {
+			if math.IsInf(bound, -1) {
+				return 0, false
+			}
+			lb = bound
+		}
+		if bound > lb {
+			lb = bound
+		}
+		any = true
+		if lb < best {
+			best = lb
+		}
+	}
+	if !any {
+		return 0, false
+	}
+	return best, true
+}
+
 // isLimitSource: an integer field named …Count… read from a parameter (the options).
-func isLimitSource(v ssa.Value) bool {
+func isLimitSource(v ssa.Value, env *lbEnv) bool {
+	if ld, ok := v.(*ssa.UnOp); ok && ld.Op == token.MUL {
+		if sv := an.FreshFieldVal(ld); sv != nil {
+			return isLimitSource(sv, env)
+		}
+	}
+	if env != nil && (env.lim[v] || env.lim[an.Origin(v)]) {
+		return true
+	}
 	if pr, ok := an.Origin(v).(*ssa.Parameter); ok {
+		if env != nil {
+			return false // inside a helper only what the call binds is the limit
+		}
 		if bt, isB := pr.Type().Underlying().(*types.Basic); isB && bt.Info()&types.IsInteger != 0 && strings.Contains(strings.ToLower(pr.Name()), "count") {
 			return true
 		}
@@ -317,7 +428,7 @@ func isLimitSource(v ssa.Value) bool {
 
 // edgeFacts: along the CFG edge pred→to carrying value e into a φ: is the edge feasible over the domain (a comparison of
 // the limit itself decides), and what lower bound do the comparisons that guard the edge give for e itself.
-func edgeFacts(pred, to *ssa.BasicBlock, e ssa.Value) (feasible bool, bound float64) {
+func edgeFacts(pred, to *ssa.BasicBlock, e ssa.Value, env *lbEnv) (feasible bool, bound float64) {
 	bound = math.Inf(-1)
 	feasible = true
 	type edge struct {
@@ -330,7 +441,7 @@ func edgeFacts(pred, to *ssa.BasicBlock, e ssa.Value) (feasible bool, bound floa
 			edges = append(edges, edge{g.From, g.Succ})
 		}
 	}
-	if ifi := an.BlockIf(pred); ifi != nil {
+	if ifi := an.BlockIf(pred); ifi != nil && to != nil {
 		for si, s := range pred.Succs {
 			if s == to {
 				edges = append(edges, edge{pred, si})
@@ -354,7 +465,7 @@ func edgeFacts(pred, to *ssa.BasicBlock, e ssa.Value) (feasible bool, bound floa
 			op = an.NegateOp(op)
 		}
 		// about the limit: decide feasibility over limit ≥ 1
-		if isLimitSource(an.Strip(x)) {
+		if isLimitSource(an.Strip(x), env) || isLimitSource(x, env) {
 			switch op {
 			case token.LEQ:
 				if k < 1 {
